@@ -22,7 +22,7 @@ fn peer_token(p: &Peer) -> Vec<u8> {
     vec![p.id[0], p.id[1], 7, 7]
 }
 
-fn outcome_coq(r: &Result<Id, PutError>) -> String {
+pub fn outcome_coq(r: &Result<Id, PutError>) -> String {
     match r {
         Ok(_) => "OutOk".into(),
         Err(PutError::Concurrency(ConcurrencyError::CasFailed)) => "(OutErr (EConcurrency CasFailed))".into(),
